@@ -28,6 +28,18 @@ OCCS = ["", "", "", "?", "*", "+"]
 URIS = ["urn:p", "http://www.example.com/ns", "urn:x:y"]
 
 
+def needs_safe_prefix(tok):
+    """xsdata prefixes a member name that does not start with a letter with `value` (1 -> VALUE_1, - -> VALUE_MINUS...)."""
+    return not tok[:1].isalpha()
+
+
+def enum_set_ok(vals):
+    """Generator rule (C07's subject, its finding family F3 "safe prefix added after duplicate detection"):
+    a token set never mixes a token that gets the safe prefix `value` with tokens whose own slug starts with
+    `value` (1|value|VALUE, 2|Value-2, value_1|1 end in two members named VALUE_1 and the module does not import)."""
+    return not (any(needs_safe_prefix(v) for v in vals) and any(_norm(v).startswith("value") for v in vals))
+
+
 def _norm(n):
     return "".join(ch for ch in n.lower() if ch.isalnum())
 
@@ -166,6 +178,8 @@ def gen_attr(rng, name, have_id):
             extra = [v for v in ENUM_TOKENS if v not in vals]
             if rng.random() < 0.5:
                 vals.append(rng.choice(extra))
+            if not enum_set_ok(vals):
+                vals = [v for v in vals if not needs_safe_prefix(v)]
             rng.shuffle(vals)
         else:
             pool = list(ENUM_TOKENS)
